@@ -255,7 +255,9 @@ impl Panicked {
 /// outside so that a harness bug can never be reported as a library panic.
 pub fn sut<T>(f: impl FnOnce() -> T) -> Result<T, Panicked> {
     IN_SUT.with(|x| *x.borrow_mut() = true);
+    let prev = crate::seam::alloc::enter();
     let r = catch_unwind(AssertUnwindSafe(f));
+    crate::seam::alloc::restore(prev);
     IN_SUT.with(|x| *x.borrow_mut() = false);
     match r {
         Ok(v) => Ok(v),
